@@ -81,8 +81,16 @@ def base_env():
     env.model('BertEObj', 'update_queue_status', trusted='status page bookkeeping (in memory)')(lambda I, self, q: None)
     env.model('BertEObj', 'add_merged_pr', trusted='status page bookkeeping (in memory)')(lambda I, self, p: None)
     import copy
-    env.fn_models[copy.deepcopy] = lambda I, x: x
-    env.trusted.append('copy.deepcopy(cascade): a copy (no repository effect)')
+    def deepcopy_model(I, x):
+        # a copy: a new object; `@copy_serial` orders the copies made during the job
+        I.ghost['copy_serial'] = I.ghost.get('copy_serial', 0) + 1
+        if isinstance(x, Obj):
+            o = I.alloc_obj(x.cls, x.schema, dict(I.heap[x.oid]))
+            I.heap[o.oid]['@copy_serial'] = I.ghost['copy_serial']
+            return o
+        return x
+    env.fn_models[copy.deepcopy] = deepcopy_model
+    env.trusted.append('copy.deepcopy(cascade): a new object equal to its argument (no repository effect)')
     # the trace does not survive a loop cut: the number of publications and of remote git operations are
     # summary ghosts, kept at zero by every loop that precedes the final push (a clause of the property)
     for fn, ordn in (('bert_e.workflow.gitwaterflow.integration:merge_integration_branches', 0),
@@ -91,13 +99,17 @@ def base_env():
                      ('bert_e.workflow.gitwaterflow.queueing:add_to_queue', 0),
                      ('bert_e.workflow.gitwaterflow.queueing:merge_queues', 0),
                      ('bert_e.workflow.gitwaterflow.queueing:merge_queues', 1)):
-        env.loop(fn, ordn, inv_nothing_published, havoc=[havoc_local, havoc_counters], top_level=True)
+        env.loop(fn, ordn, inv_nothing_published, havoc=[havoc_local, havoc_counters, mark_loop_entry], top_level=True)
     env.on_event = on_event
     return env
 
 
 def inv_nothing_published(G):
     return G.writers == 0 and (G.remote_git_ops == 0 or G.remote_allowed)
+
+
+def mark_loop_entry(I, fr):
+    I.ghost['serial_at_loop'] = I.ghost.get('copy_serial', 0)
 
 
 def havoc_counters(I, fr):
@@ -256,7 +268,14 @@ def hmq_setup(I, args):
     I.ghost['failed_prs'] = I.alloc_list(I.fresh('failed_prs', 'fseq[int]'))
     # merge_queues through its contract (verified above): local merges and deletions, no remote operation
     I.env.fn_models[Q.merge_queues] = lambda I2, queues: emit(I2, 'merge_queues')
-    I.env.fn_models[Q.close_queued_pull_request] = lambda I2, j, pr_id, casc: emit(I2, 'comment', pr_id)
+    def close_model(I2, j, pr_id, casc):
+        # [C19] close_queued_pull_request finalizes (mutates) the cascade it is given for ONE pull request:
+        # each merged pull request must get its own copy, made for it inside the loop
+        serial = I2.heap[casc.oid].get('@copy_serial', 0) if isinstance(casc, Obj) else 0
+        tagged(I2, 'C19', 'each merged pull request is closed with its own fresh copy of the cascade', 'site',
+               smt.BoolC(serial > I2.ghost.get('serial_at_loop', 0)), 'close_queued_pull_request')
+        emit(I2, 'comment', pr_id)
+    I.env.fn_models[Q.close_queued_pull_request] = close_model
     I.env.fn_models[Q.notify_queue_build_failed] = lambda I2, prs, j: emit(I2, 'comment', 'queue build failed')
 
 
@@ -297,6 +316,13 @@ def contracts(env):
 
 
 def extra(rep, tier, seed, budget):
+    from bounded import integrate as _integ
+    _integ.crash(rep, tier, seed)
+    # queue merges: every selected pull request lands on ALL the versions it targets (clause b of the queue
+    # evaluation stand-in: each destination moves to the queue commit of the newest selected pull request)
+    from bounded import c05_queue
+    from specs import c05
+    c05.integrate(rep, c05_queue.run(tier, seed), clauses=('b', 'exception'))
     from pyvc.cli import write_replay
     facts = []
     src_all = inspect.getsource(GIT.Repository.push_all)
@@ -314,6 +340,14 @@ def extra(rep, tier, seed, budget):
             path = write_replay(rep.pid, k, {'fact': what, 'data': data})
             rep.violations.append({'key': k, 'what': what, 'replay': path, 'input': data, 'noinput': False})
     rep.facts.append({'fact': 'push command lines', 'checked': len(facts)})
+
+
+def replay_file(data):
+    if isinstance(data.get('case'), dict) and 'prs' in data['case']:
+        from specs import c05
+        return c05.replay_file(data)
+    from bounded import integrate as _integ
+    return _integ.replay(data)
 
 
 META = {
